@@ -21,7 +21,9 @@ import time
 from concurrent.futures import ThreadPoolExecutor
 
 VERIF = os.path.dirname(os.path.dirname(os.path.abspath(__file__)))
-COQ = os.path.join(VERIF, "coq")
+# VERIF_COQ_DIR: a private copy of the development (tools/seedtest.sh uses one per mutated tree, so that
+# regenerated Gen/*.v files and .vo files of concurrent runs against different trees never mix)
+COQ = os.environ.get("VERIF_COQ_DIR") or os.path.join(VERIF, "coq")
 THEORIES = os.path.join(COQ, "theories")
 BUILD = os.path.join(COQ, "build")
 REPO = os.environ.get("ATTRS_REPO", "/repo")
@@ -94,7 +96,7 @@ def _run(cmd, cwd=None, timeout=1800, env=None):
 
 class Lock:
     def __enter__(self):
-        self.f = open(os.path.join(VERIF, ".coq.lock"), "w")
+        self.f = open(os.path.join(COQ, ".coq.lock") if os.environ.get("VERIF_COQ_DIR") else os.path.join(VERIF, ".coq.lock"), "w")
         fcntl.flock(self.f, fcntl.LOCK_EX)
         return self
 
@@ -289,11 +291,12 @@ class Discrepancy:
 
 
 def write_replay(prop, disc: Discrepancy):
-    os.makedirs(os.path.join(VERIF, "replays"), exist_ok=True)
+    rdir = os.environ.get("VERIF_REPLAY_DIR") or os.path.join(VERIF, "replays")
+    os.makedirs(rdir, exist_ok=True)
     body = json.dumps({"property": prop, "signature": disc.sig, "what": disc.what,
                        "replay": disc.replay}, indent=1, sort_keys=True, default=str)
     h = hashlib.sha1(body.encode()).hexdigest()[:12]
-    path = os.path.join(VERIF, "replays", "%s-%s.json" % (prop, h))
+    path = os.path.join(rdir, "%s-%s.json" % (prop, h))
     with open(path, "w") as fh:
         fh.write(body + "\n")
     return path
